@@ -78,6 +78,14 @@ func buildGenerated(w *w6, r *rand.Rand) (*genSeg, bool) {
 		first, maxTs := int64(0), int64(0)
 		for i := 0; i < n; i++ {
 			tcur += int64(r.IntN(2000)) - 600 // timestamp deltas may be negative
+			if i > 0 && r.IntN(8) == 0 {
+				// client-supplied timestamps: the delta is a varlong and may need more than 32 bits
+				jump := int64(1)<<uint(31+r.IntN(10)) + int64(r.IntN(1000))
+				if r.IntN(2) == 0 && tcur > jump {
+					jump = -jump
+				}
+				tcur += jump
+			}
 			if i == 0 {
 				first, maxTs = tcur, tcur
 			}
